@@ -92,8 +92,23 @@ def run(case):
             lr = LineageRunner(out["sql"], dialect=dia)
             out["connected"] = len(lr.source_tables) == 1
             out["hash_consistent"] = _hash_ok(a.source_tables[0], W, len(wn))
+        elif (wp, rp) == ("from", "table_qualifier"):
+            W, R = spell(wn, "tab"), spell(rn, "tab")
+            out["sql"] = "insert into fin select %s.c1 from %s" % (R, W)
+            lr = LineageRunner(out["sql"], dialect=dia)
+            paths = lr.get_column_lineage()
+            owner, src = paths[0][0].parent, lr.source_tables[0]
+            out["connected"] = owner == src
+            out["wprinted"] = printed(str(src), len(wn))
+            # the qualifier is printed when it is not found (it becomes a table name of its own): its leaf part
+            out["rprinted"] = printed(str(owner), len(rn)) if out["connected"] else printed(str(src), len(rn))[:-1] + printed(str(owner), 1)
+            out["hash_consistent"] = (_hash_ok(src, W, len(wn)) and
+                                      (owner != src or (hash(owner) == hash(src) and owner in {src} and len({owner, src}) == 1)))
         elif rp in ("next_stmt_colref", "next_stmt_colref_after_rename"):
             W, R = spell(wn, "col"), spell(rn, "col")
+            if case.get("dotted"):
+                # a quoted name may contain a dot: it is one name all the same
+                W, R = W.replace("ol", "o.l").replace("OL", "O.L"), R.replace("ol", "o.l").replace("OL", "O.L")
             s1 = ("insert into mid select c0 as %s from src0" % W) if wp == "target_column" else ("insert into mid (%s) select c0 from src0" % W)
             s2 = "insert into fin select %s as out1 from mid" % R
             if rp == "next_stmt_colref_after_rename":
